@@ -19,8 +19,8 @@ import (
 func init() {
 	register(Property{ID: "C08", Level: "other", Run: runC08,
 		Technique: "static analysis: type-graph walk of conf.Conf/conf.Path (go/types), encoder/decoder sibling agreement (method pairs, wire types, constant tables extracted from the switch statements), static call-graph reachability of fixed-precision float formatting from the encoders, struct-tag rules, and a sibling-agreement rule over the callers of (*Conf).Validate for nil-slice normalisation",
-		Text: "Decides structural necessary conditions of the JSON round trip: every type in the configuration graph with MarshalJSON has UnmarshalJSON and both use the same wire type; decoder-only types read the default encoding of their underlying type; for enum-like types the string tables of encoder and decoder agree (decode(encode(k)) = k for every constant the decoder can produce); no encoder reaches a fixed-precision float formatter; json:\"-\" fields are exactly the tabled derived fields filled by Validate; the optional (patch) struct types are derived from Conf/Path skipping exactly the same fields as the returned Global type; omitempty is used only on pointer fields; configurations that contain slices nested below list elements are normalised (nil → empty) before they can be returned, because the decoder rejects null. Does not decide equality over value domains (time.Duration.String/ParseDuration, net.ParseCIDR, bytefmt.ToBytes), nor the deliberate redaction of credentials in API responses.",
-		Note: "trusted: encoding/json default encodings, time.Duration.String ↔ time.ParseDuration, net.IPNet.String ↔ net.ParseCIDR; reflect-based derivation of optional types is read from the constants its closures compare the json tag with"})
+		Text:      "Decides structural necessary conditions of the JSON round trip: every type in the configuration graph with MarshalJSON has UnmarshalJSON and both use the same wire type; decoder-only types read the default encoding of their underlying type; for enum-like types the string tables of encoder and decoder agree (decode(encode(k)) = k for every constant the decoder can produce); no encoder reaches a fixed-precision float formatter; json:\"-\" fields are exactly the tabled derived fields filled by Validate; the optional (patch) struct types are derived from Conf/Path skipping exactly the same fields as the returned Global type; omitempty is used only on pointer fields; configurations that contain slices nested below list elements are normalised (nil → empty) before they can be returned, because the decoder rejects null. Does not decide equality over value domains (time.Duration.String/ParseDuration, net.ParseCIDR, bytefmt.ToBytes), nor the deliberate redaction of credentials in API responses.",
+		Note:      "trusted: encoding/json default encodings, time.Duration.String ↔ time.ParseDuration, net.IPNet.String ↔ net.ParseCIDR; reflect-based derivation of optional types is read from the constants its closures compare the json tag with"})
 	addMutants(
 		Mutant{"C08", "decoder-removed", "internal/conf/rtsp_auth_method.go",
 			"// UnmarshalJSON implements json.Unmarshaler.\nfunc (d *RTSPAuthMethod) UnmarshalJSON(b []byte) error {", "func (d *RTSPAuthMethod) unmarshalJSONDisabled(b []byte) error {", "C08.pair"},
